@@ -50,6 +50,14 @@ CLAIMED = {
              "insertion. (b) generated switch statements over all integer controlling types with up to 5000 cases are compiled, executed via il2c and probed at every key, "
              "its neighbours and the type limits against a dictionary model; search depth is bounded from the IL; duplicate case constants/defaults must be rejected.",
         note="(a) exhaustive only for <= 8 keys (10 in thorough); (b) IL executed through il2c, not QBE; gcc/clang arbitrate model mismatches."),
+    "C06": dict(
+        category="exploration", design_ref="DESIGN.md 3/C06",
+        engine="hypothesis+enumeration",
+        technique="differential property-based testing of layout tables (sizeof/_Alignof/offsetof, bit-field images) against clang --target objects for three ABIs and host gcc; bounded-exhaustive bit-field sequences",
+        text="Generated struct/union/enum definitions are compiled by cproc-qbe and by clang for x86_64, aarch64 and riscv64 (gcc too on x86_64); the emitted tables of "
+             "sizeof, _Alignof and every member offset, and the static image of an object with exactly one bit-field set to all ones, must be byte-identical. "
+             "The space of bit-field sequences of length 1 (and a seed-selected quarter of length 2; all of length <= 2 plus a reduced length-3 space in thorough) is enumerated.",
+        note="clang 14 (and gcc 12 on the host) are the ABI oracle; where they disagree on x86_64 the case is discarded; aligned(n) attributes and bit-fields in packed structs are documented as unsupported and not generated."),
 }
 
 NOT_YET = "check not built yet in this round (planned per DESIGN.md section 10); no claim is made"
